@@ -24,6 +24,7 @@ var informational = []string{"multipleOf", "minProperties", "maxProperties", "di
 
 func main() {
 	c := core.New("C18")
+	c.ReplayFallback()
 	swagger := c.BuildSwagger()
 	modelrig.SkipDriver = true
 	atoms := specgen.SchemaAtoms()
